@@ -32,6 +32,7 @@ type Actor struct {
 	kids    int
 	Blocked string // site of the blocking library select it is in, "" if none
 	Lib     bool   // spawned by a `go` statement inside the library
+	adopted bool
 }
 
 // Kernel parks goroutines and releases them one at a time.
@@ -214,6 +215,38 @@ func Yield(site string) {
 		return
 	}
 	k.park(site, nil, nil)
+}
+
+// Woken is a schedule point right after an operation that may have blocked:
+// the goroutine that woke this one is still running, so this one parks until
+// the scheduler picks it. Two instrumented goroutines never run side by side.
+func Woken(site string) {
+	k := Current
+	if k == nil {
+		return
+	}
+	k.park(site+"#woken", nil, nil)
+}
+
+// Adopt gives the calling goroutine (one the library or harness did not
+// spawn, e.g. a server's per-request goroutine) a deterministic identity and
+// rank instead of one that depends on the order of first arrival.
+func Adopt(id string, rank int) {
+	k := Current
+	if k == nil {
+		return
+	}
+	g := goid()
+	k.mu.Lock()
+	a := k.byGoid[g]
+	if a == nil {
+		a = &Actor{}
+		k.byGoid[g] = a
+	}
+	if !a.adopted {
+		a.ID, a.seq, a.adopted = id, 1_000_000+rank, true
+	}
+	k.mu.Unlock()
 }
 
 // BeforeLock is a schedule point in front of a mutex acquisition. It returns
